@@ -4,12 +4,11 @@ use crate::support::*;
 use educe::Educe;
 use core::cmp::Ordering;
 #[derive(Educe)]
-#[repr(isize)]
-#[educe(Eq, Ord, PartialEq)]
-pub enum T { Zed { #[educe(Ord(method = m_cmp))] state: A<0>, #[educe(Ord(ignore = true))] builder: A<0>, c: A<0>, _0: A<3> } = 128, B { #[educe(Ord = false)] data: A<0>, #[educe(Ord(ignore = true))] builder: A<1> } = 127 }
-impl PartialOrd for T { fn partial_cmp(&self, o: &Self) -> Option<Ordering> { Some(::core::cmp::Ord::cmp(self, o)) } }
-pub fn values() -> Vec<T> { vec![T::Zed { state: A(0), builder: A(7), c: A(0), _0: A(0) }, T::Zed { state: A(0), builder: A(7), c: A(7), _0: A(1) }, T::Zed { state: A(1), builder: A(0), c: A(1), _0: A(1) }, T::Zed { state: A(0), builder: A(0), c: A(1), _0: A(7) }, T::Zed { state: A(1), builder: A(0), c: A(7), _0: A(0) }, T::Zed { state: A(1), builder: A(7), c: A(1), _0: A(7) }, T::Zed { state: A(1), builder: A(0), c: A(0), _0: A(7) }, T::Zed { state: A(0), builder: A(7), c: A(0), _0: A(1) }, T::Zed { state: A(1), builder: A(7), c: A(0), _0: A(1) }, T::Zed { state: A(0), builder: A(0), c: A(1), _0: A(0) }, T::Zed { state: A(7), builder: A(0), c: A(7), _0: A(7) }, T::Zed { state: A(0), builder: A(0), c: A(7), _0: A(0) }, T::Zed { state: A(1), builder: A(1), c: A(0), _0: A(0) }, T::Zed { state: A(0), builder: A(1), c: A(0), _0: A(0) }, T::Zed { state: A(0), builder: A(0), c: A(0), _0: A(0) }, T::Zed { state: A(1), builder: A(0), c: A(0), _0: A(0) }, T::Zed { state: A(1), builder: A(0), c: A(1), _0: A(7) }, T::Zed { state: A(1), builder: A(1), c: A(0), _0: A(1) }, T::B { data: A(0), builder: A(0) }, T::B { data: A(0), builder: A(1) }, T::B { data: A(0), builder: A(7) }, T::B { data: A(1), builder: A(0) }, T::B { data: A(1), builder: A(1) }, T::B { data: A(1), builder: A(7) }, T::B { data: A(7), builder: A(0) }, T::B { data: A(7), builder: A(1) }, T::B { data: A(7), builder: A(7) }] }
-pub fn show(x: &T) -> String { #[allow(unused_variables)] match x { T::Zed { state: p0, builder: p1, c: p2, _0: p3 } => format!("Zed({},{},{},{})", sv(p0), sv(p1), sv(p2), sv(p3)), T::B { data: p0, builder: p1 } => format!("B({},{})", sv(p0), sv(p1)) } }
-pub fn o_disc(x: &T) -> i128 { match x { T::Zed { state: _, builder: _, c: _, _0: _ } => 128, T::B { data: _, builder: _ } => 127 } }
-pub fn o_cmp(a: &T, b: &T) -> Ordering { match (a, b) { (T::Zed { state: a0, builder: a1, c: a2, _0: a3 }, T::Zed { state: b0, builder: b1, c: b2, _0: b3 }) => { let c = m_cmp(a0, b0); if c != Ordering::Equal { return c; } let c = ::core::cmp::Ord::cmp(a2, b2); if c != Ordering::Equal { return c; } let c = ::core::cmp::Ord::cmp(a3, b3); if c != Ordering::Equal { return c; } Ordering::Equal }, (T::B { data: a0, builder: a1 }, T::B { data: b0, builder: b1 }) => {  Ordering::Equal }, _ => o_disc(a).cmp(&o_disc(b)) } }
-pub fn run(out: &mut Out) { let vs = values(); for (i, a) in vs.iter().enumerate() { for (j, b) in vs.iter().enumerate() { let e = o_cmp(a, b); let g = ::core::cmp::Ord::cmp(a, b); out.check(g == e, "ord_0", "cmp", || format!("cmp({}, {}) = {:?} expected {:?}", show(a), show(b), g, e)); } } }
+#[educe(PartialOrd, PartialEq, Ord, Eq)]
+pub struct T;
+
+pub fn values() -> Vec<T> { vec![T] }
+pub fn show(x: &T) -> String { #[allow(unused_variables)] match x { T => format!("T()") } }
+pub fn o_disc(x: &T) -> i128 { match x { T => 0 } }
+pub fn o_cmp(a: &T, b: &T) -> Ordering { match (a, b) { (T, T) => {  Ordering::Equal } } }
+pub fn run(out: &mut Out) { let vs = values(); for (i, a) in vs.iter().enumerate() { for (j, b) in vs.iter().enumerate() { let e = o_cmp(a, b); let g = ::core::cmp::Ord::cmp(a, b); out.check(g == e, "ord_0", "cmp", || format!("cmp({}, {}) = {:?} expected {:?}", show(a), show(b), g, e)); let g2 = ::core::cmp::PartialOrd::partial_cmp(a, b); out.check(g2 == Some(e), "ord_0", "partial_is_some_cmp", || format!("partial_cmp({}, {}) = {:?} expected Some({:?})", show(a), show(b), g2, e)); } } }
